@@ -554,7 +554,11 @@ func drive(o hx.RunOpts) error {
 		"as prefix/suffix, in every string field and in custom data; control characters, backslashes, quotes, HTML characters, U+2028/9, non-ASCII) marshaled by encoding.Marshal and compared byte for byte with the model's encodeSI, "+
 		"then patched (count, timestamp) by fs.patchJSONNumericField and by the model; (b) the patch function on texts that are not metadata files; (c) fs.StoreRepository Add / Update history / Get after reopen "+
 		"(fresh repository objects, cold cache) on a temp directory, file bytes compared after every call. distinct = canonical op-line hash; non-trivial = (a) a string field contains a quote, backslash or a metadata key, "+
-		"(b) the text contains the key token, (c) every case")
+		"(b) the text contains the key token, (c) every case; "+
+		"(d) HISTORIES in one process: 1..4 stores on one folder, ONE shared L2 cache, a real fs.StoreRepository (often a fresh object per commit); events = Update on one or more stores (deltas -6..14, NeedsMetaDataSave sometimes) of which about a third of the multi-store ones have one store's storeinfo.txt really broken during the call "+
+		"(a directory in its place, or the immutable flag where supported), so the Update fails at the 1st/2nd/3rd/4th store in name order and its undo reverts the earlier ones; cache-first Gets; evictions of the cache entry between calls / right before the forward pass / right before the undo pass reads it; cold reopen midway and at the end. "+
+		"Diffed with the model (Sop.Model.StoreInfoHistory over the Update model Sop.Model.StoreInfoCache) after every Update: result, every store's file AND cache entry (count, timestamp, configuration id); every Get; every cold read. "+
+		"Direct oracle: what a cold process reads = initial count + deltas of the Updates that returned nil, timestamp of the last of them, own configuration; a failed Update leaves every file unchanged; a cache-first Get reports the committed count. Non-trivial (d) = the history has a failed Update and a successful one. A directed corpus of 8 histories runs first.")
 	p := hx.NewPrng(o.Seed)
 	ctx := context.Background()
 
@@ -630,7 +634,11 @@ func drive(o hx.RunOpts) error {
 			return err
 		}
 	}
+	// (d) histories of commits in one process (shared L2 cache): multi-store Updates failing midway and undone, then more commits, cold reopen
+	if err := histCases(ctx, s, p, o); err != nil {
+		return err
+	}
 	s.Rep.CoverageGap = append(s.Rep.CoverageGap, "strings with invalid UTF-8 (the encoder replaces bad bytes by U+FFFD at Add time; not a commit effect) are not generated",
-		"replication (passive folder) and the undo path of Update after a mid-batch failure are not driven here")
+		"replication (passive folder) is not driven here; in the histories (d) the undo pass itself is never made to fail (a failing undo write is C20's subject) and failures are of the before-effect kind (a really unreadable / unwritable file)")
 	return s.Finish()
 }
